@@ -151,6 +151,114 @@ def target_balances_altair_pure (cfg : Config) (vals : List Validator)
    total_balance_of cfg vals
      (unslashed_participating_indices_of vals current_epoch_participation TIMELY_TARGET_FLAG_INDEX current_epoch))
 
+/-! ## Phase0 rewards and penalties
+
+The pending attestations enter with their committees resolved (`get_attesting_indices`) and their target/head
+comparisons made; sets of validator indices are represented as index-sorted lists. -/
+
+structure ResolvedAtt where
+  /-- `get_attesting_indices(state, a.data, a.aggregation_bits)` -/
+  indices : List Nat
+  inclusion_delay : Nat
+  proposer_index : Nat
+  /-- `a.data.target.root == get_block_root(state, epoch)` -/
+  matching_target : Bool
+  /-- `a.data.beacon_block_root == get_block_root_at_slot(state, a.data.slot)` -/
+  matching_head : Bool
+  deriving DecidableEq, Inhabited
+
+/-- `get_matching_target_attestations` among the epoch's (source-matching) attestations -/
+def matching_target_atts (atts : List ResolvedAtt) : List ResolvedAtt := atts.filter (·.matching_target)
+/-- `get_matching_head_attestations` -/
+def matching_head_atts (atts : List ResolvedAtt) : List ResolvedAtt := (matching_target_atts atts).filter (·.matching_head)
+
+/-- `get_unslashed_attesting_indices`: the union of the attesting indices, without the slashed validators -/
+def unslashed_attesting_indices_of (vals : List Validator) (atts : List ResolvedAtt) : List Nat :=
+  let output := (List.range vals.length).filter fun i => atts.any fun a => a.indices.contains i
+  output.filter fun index => !slashed_of vals index
+
+/-- phase0 `get_base_reward` -/
+def base_reward_phase0_of (cfg : Config) (vals : List Validator) (total_balance index : Nat) : Nat :=
+  eff_of vals index * cfg.BASE_REWARD_FACTOR / integer_squareroot total_balance / BASE_REWARDS_PER_EPOCH
+
+def proposer_reward_of (cfg : Config) (vals : List Validator) (total_balance attesting_index : Nat) : Nat :=
+  base_reward_phase0_of cfg vals total_balance attesting_index / cfg.PROPOSER_REWARD_QUOTIENT
+
+/-- phase0 `get_attestation_component_deltas` -/
+def get_attestation_component_deltas_pure (cfg : Config) (vals : List Validator) (previous_epoch total_balance : Nat)
+    (in_leak : Bool) (attestations : List ResolvedAtt) : Deltas :=
+  let unslashed_attesting_indices := unslashed_attesting_indices_of vals attestations
+  let attesting_balance := total_balance_of cfg vals unslashed_attesting_indices
+  (eligible_indices_of vals previous_epoch).foldl (fun (d : Deltas) index =>
+    let base_reward := base_reward_phase0_of cfg vals total_balance index
+    if unslashed_attesting_indices.contains index then
+      let increment := cfg.EFFECTIVE_BALANCE_INCREMENT
+      if in_leak then (addAtPure d.1 index base_reward, d.2)
+      else
+        let reward_numerator := base_reward * (attesting_balance / increment)
+        (addAtPure d.1 index (reward_numerator / (total_balance / increment)), d.2)
+    else (d.1, addAtPure d.2 index base_reward)) (zeros vals.length, zeros vals.length)
+
+/-- `min(candidates, key=lambda a: a.inclusion_delay)`: the first attestation with the least inclusion delay -/
+def min_inclusion (first : ResolvedAtt) (candidates : List ResolvedAtt) : ResolvedAtt :=
+  candidates.foldl (fun best a => if a.inclusion_delay < best.inclusion_delay then a else best) first
+
+/-- phase0 `get_inclusion_delay_deltas` (rewards; there are no penalties) -/
+def get_inclusion_delay_deltas_pure (cfg : Config) (vals : List Validator) (total_balance : Nat)
+    (matching_source_attestations : List ResolvedAtt) : List Nat :=
+  (unslashed_attesting_indices_of vals matching_source_attestations).foldl (fun rewards index =>
+    match matching_source_attestations.filter (fun a => a.indices.contains index) with
+    | [] => rewards
+    | first :: rest =>
+      let attestation := min_inclusion first rest
+      let rewards := addAtPure rewards attestation.proposer_index (proposer_reward_of cfg vals total_balance index)
+      let max_attester_reward :=
+        base_reward_phase0_of cfg vals total_balance index - proposer_reward_of cfg vals total_balance index
+      addAtPure rewards index (max_attester_reward / attestation.inclusion_delay)) (zeros vals.length)
+
+/-- phase0 `get_inactivity_penalty_deltas` (penalties; there are no rewards) -/
+def get_inactivity_penalty_deltas_phase0_pure (cfg : Config) (vals : List Validator)
+    (previous_epoch total_balance finality_delay : Nat) (in_leak : Bool)
+    (matching_source_attestations : List ResolvedAtt) : List Nat :=
+  if in_leak then
+    let matching_target_attesting_indices :=
+      unslashed_attesting_indices_of vals (matching_target_atts matching_source_attestations)
+    (eligible_indices_of vals previous_epoch).foldl (fun penalties index =>
+      -- If validator is performing optimally this cancels all rewards for a neutral balance
+      let base_reward := base_reward_phase0_of cfg vals total_balance index
+      let penalties := addAtPure penalties index
+        (BASE_REWARDS_PER_EPOCH * base_reward - proposer_reward_of cfg vals total_balance index)
+      if !matching_target_attesting_indices.contains index then
+        addAtPure penalties index (eff_of vals index * finality_delay / cfg.INACTIVITY_PENALTY_QUOTIENT)
+      else penalties) (zeros vals.length)
+  else zeros vals.length
+
+/-- phase0 `get_attestation_deltas`; `atts` are the previous epoch's pending attestations -/
+def get_attestation_deltas_pure (cfg : Config) (vals : List Validator) (previous_epoch total_balance finality_delay : Nat)
+    (in_leak : Bool) (atts : List ResolvedAtt) : Deltas :=
+  let source := get_attestation_component_deltas_pure cfg vals previous_epoch total_balance in_leak atts
+  let target := get_attestation_component_deltas_pure cfg vals previous_epoch total_balance in_leak (matching_target_atts atts)
+  let head := get_attestation_component_deltas_pure cfg vals previous_epoch total_balance in_leak (matching_head_atts atts)
+  let inclusion_delay_rewards := get_inclusion_delay_deltas_pure cfg vals total_balance atts
+  let inactivity_penalties :=
+    get_inactivity_penalty_deltas_phase0_pure cfg vals previous_epoch total_balance finality_delay in_leak atts
+  ((List.range vals.length).map fun i =>
+      source.1.getD i 0 + target.1.getD i 0 + head.1.getD i 0 + inclusion_delay_rewards.getD i 0,
+   (List.range vals.length).map fun i =>
+      source.2.getD i 0 + target.2.getD i 0 + head.2.getD i 0 + inactivity_penalties.getD i 0)
+
+/-- phase0 `process_rewards_and_penalties` after the genesis-epoch guard: new balances -/
+def process_rewards_and_penalties_phase0_pure (cfg : Config) (vals : List Validator) (balances : List Nat)
+    (previous_epoch current_epoch finality_delay : Nat) (in_leak : Bool) (atts : List ResolvedAtt) : List Nat :=
+  apply_deltas_pure vals.length balances
+    (get_attestation_deltas_pure cfg vals previous_epoch (total_active_balance_of cfg vals current_epoch)
+      finality_delay in_leak atts)
+
+/-- phase0: the two target balances `process_justification_and_finalization` weighs -/
+def target_balances_phase0_pure (cfg : Config) (vals : List Validator) (previous_atts current_atts : List ResolvedAtt) : Nat × Nat :=
+  (total_balance_of cfg vals (unslashed_attesting_indices_of vals (matching_target_atts previous_atts)),
+   total_balance_of cfg vals (unslashed_attesting_indices_of vals (matching_target_atts current_atts)))
+
 /-! ## Final updates -/
 
 /-- `process_eth1_data_reset`: the new `eth1_data_votes` -/
